@@ -6,12 +6,13 @@ Parses with `ast` (never imports) and renders, in the vocabulary of `NixModel/St
                        their single base class, of FeatureContainer (tag.py) and SourceLinkContainer) as `List DStmt`:
                            if not isinstance(item, (A, B)): item = self[item]      -> .resolveUnless [..]
                            if not isinstance(item, self._itemclass): raise TypeError(..)   -> .requireItem
-                           v = [s.id for s in item.find_sections()]                -> .assign (.subtree "sections")
-                           v.append(item.id)                                       -> .append .selfId
-                           self._file._h5group.delete_all(v) / ([item.id])         -> .fileDeleteAll none / (some .selfId)
+                           v = [s._h5group for s in item.find_sections()]          -> .assign (.subtree "sections")
+                           v.append(item._h5group)                                 -> .append .selfObj
+                           self._file._h5group.delete_all(v) / ([item._h5group])   -> .fileDeleteAll none / (some .selfObj)
                            self._backend.delete(item.id[, delete_if_empty=b])      -> .backendDelete none / (some b)
-  nixio/hdf5/h5group.py  the loop body of `delete_all` (`List ScanStmt`: if child.get_attr(a) in eid / del grp[child.name] /
-                       break / continue), around it exactly: skip non-groups, `for child in grp`, `self._group.visititems`;
+  nixio/hdf5/h5group.py  the loop body of `delete_all` (`List ScanStmt`: if child.h5obj in targets / del grp[child.name] /
+                       break / continue), around it exactly: `targets` = the HDF5 objects of the handles passed (template),
+                       skip non-groups, `for child in grp`, `self._group.visititems`;
                        the default of `delete(…, delete_if_empty=…)` and the bound in `groupdepth > N` (rest of the body
                        compared with a template); `__delitem__`, `__contains__` (templates)
   nixio/util/find.py, section.py, source.py   `_find_sections` / `_find_sources` and the argument defaults of
@@ -122,7 +123,13 @@ def _not_isinstance_item(test):
 
 
 def _item_id(n):
+    """`item.id` (the key of an entry of a link list: `self._backend.delete(item.id)`)"""
     return _is_attr(n, "item", "id")
+
+
+def _item_obj(n):
+    """`item._h5group` (the HDF5 object handed to `delete_all`)"""
+    return _is_attr(n, "item", "_h5group")
 
 
 def _delitem(cls, cname):
@@ -154,7 +161,7 @@ def _delitem(cls, cname):
         if isinstance(st, ast.Assign) and len(st.targets) == 1 and isinstance(st.targets[0], ast.Name):
             v = st.value
             if (isinstance(v, ast.ListComp) and len(v.generators) == 1 and isinstance(v.elt, ast.Attribute)
-                    and v.elt.attr == "id" and isinstance(v.elt.value, ast.Name)):
+                    and v.elt.attr == "_h5group" and isinstance(v.elt.value, ast.Name)):
                 gen = v.generators[0]
                 it = gen.iter
                 if (_is_name(gen.target, v.elt.value.id) and not gen.ifs and not gen.is_async
@@ -162,7 +169,7 @@ def _delitem(cls, cname):
                         and isinstance(it.func, ast.Attribute) and _is_name(it.func.value, "item")
                         and it.func.attr in ("find_sections", "find_sources")):
                     if var is not None and var != st.targets[0].id:
-                        raise ExtractError("%s: a second id list" % w)
+                        raise ExtractError("%s: a second object list" % w)
                     var = st.targets[0].id
                     out.append(".assign (.subtree %s)" % lean_str(it.func.attr[len("find_"):]))
                     continue
@@ -171,8 +178,8 @@ def _delitem(cls, cname):
             c = st.value
             f = c.func
             if (isinstance(f, ast.Attribute) and f.attr == "append" and var is not None and _is_name(f.value, var)
-                    and len(c.args) == 1 and not c.keywords and _item_id(c.args[0])):
-                out.append(".append .selfId")
+                    and len(c.args) == 1 and not c.keywords and _item_obj(c.args[0])):
+                out.append(".append .selfObj")
                 continue
             if (isinstance(f, ast.Attribute) and f.attr == "delete_all" and isinstance(f.value, ast.Attribute)
                     and f.value.attr == "_h5group" and _is_attr(f.value.value, "self", "_file")):
@@ -182,8 +189,8 @@ def _delitem(cls, cname):
                 if var is not None and _is_name(arg, var):
                     out.append(".fileDeleteAll none")
                     continue
-                if isinstance(arg, ast.List) and len(arg.elts) == 1 and _item_id(arg.elts[0]):
-                    out.append(".fileDeleteAll (some .selfId)")
+                if isinstance(arg, ast.List) and len(arg.elts) == 1 and _item_obj(arg.elts[0]):
+                    out.append(".fileDeleteAll (some .selfObj)")
                     continue
                 raise ExtractError("%s: delete_all(%s) is not modelled" % (w, ast.unparse(arg)))
             if isinstance(f, ast.Attribute) and f.attr == "delete" and _is_attr(f.value, "self", "_backend"):
@@ -232,6 +239,15 @@ def delete(self, id_or_name, delete_if_empty=True):
         del self.parent.group[self.name]
         self.group = None
 '''
+DELETE_ALL_TARGETS = '''
+targets = []
+for obj in objs:
+    h5obj = getattr(obj, "group", None)
+    if h5obj is None:
+        h5obj = getattr(obj, "dataset", None)
+    if h5obj is not None:
+        targets.append(h5obj)
+'''
 H5_DELITEM = '''
 def __delitem__(self, key):
     del self.group[key]
@@ -258,11 +274,8 @@ def _scan(stmts, where):
         elif isinstance(st, ast.If) and not st.orelse:
             t = st.test
             if (isinstance(t, ast.Compare) and len(t.ops) == 1 and isinstance(t.ops[0], ast.In)
-                    and _is_name(t.comparators[0], "eid") and isinstance(t.left, ast.Call)
-                    and _is_attr(t.left.func, "child", "get_attr") and len(t.left.args) == 1 and not t.left.keywords
-                    and isinstance(t.left.args[0], ast.Constant) and isinstance(t.left.args[0].value, str)):
-                out.append("(.ifAttrIn %s [%s])" % (lean_str(t.left.args[0].value),
-                                                   ", ".join(_scan(st.body, where))))
+                    and _is_name(t.comparators[0], "targets") and _is_attr(t.left, "child", "h5obj")):
+                out.append("(.ifObjIn [%s])" % ", ".join(_scan(st.body, where)))
             else:
                 raise ExtractError("%s: condition is not modelled: %s" % (w, ast.unparse(t)))
         else:
@@ -275,12 +288,16 @@ def _delete_all(cls):
     if fn is None:
         raise ExtractError("H5Group has no delete_all")
     where = "H5Group.delete_all"
-    if [x.arg for x in fn.args.args] != ["self", "eid"] or fn.args.defaults or fn.decorator_list:
+    if [x.arg for x in fn.args.args] != ["self", "objs"] or fn.args.defaults or fn.decorator_list:
         raise ExtractError("%s: signature changed" % where)
     body = _stmts(fn)
-    if len(body) != 2 or not isinstance(body[0], ast.FunctionDef):
-        raise ExtractError("%s: expected a visitor function and one visititems call" % where)
-    vis, call = body
+    if len(body) != 4 or not isinstance(body[2], ast.FunctionDef):
+        raise ExtractError("%s: expected the target list, a visitor function and one visititems call" % where)
+    # `targets`: the HDF5 object (h5py identity) behind every handle passed, group or dataset
+    pre = ast.Module(body=body[:2], type_ignores=[])
+    if ast.dump(pre) != ast.dump(ast.parse(DELETE_ALL_TARGETS)):
+        raise ExtractError("%s: `targets` is no longer the list of the HDF5 objects of the handles passed" % where)
+    vis, call = body[2:]
     if [x.arg for x in vis.args.args] != ["_", "obj"] or vis.decorator_list:
         raise ExtractError("%s: visitor signature changed" % where)
     t = _tmpl("self._group.visititems(%s)" % vis.name)
@@ -549,6 +566,17 @@ def shape(repo):
         if m is None:
             raise ExtractError("H5Group.%s is missing" % nm)
         _same_body(m, src, "H5Group.%s" % nm)
+    # `child.h5obj` / the handles' `.group` / `.dataset`: the HDF5 object a handle stands for
+    ds = _classes(_parse(repo, os.path.join("hdf5", "h5dataset.py"))).get("H5DataSet")
+    if ds is None:
+        raise ExtractError("hdf5/h5dataset.py has no class H5DataSet")
+    for cls, cname, field in ((h5, "H5Group", "group"), (ds, "H5DataSet", "dataset")):
+        assigns = [n for n in ast.walk(cls) if isinstance(n, (ast.Assign, ast.AugAssign, ast.AnnAssign))
+                   and any(_is_attr(t, "self", "h5obj") for t in (n.targets if isinstance(n, ast.Assign) else [n.target]))]
+        init = _method(cls, "__init__")
+        if (init is None or len(assigns) != 1 or not _stmts(init) or _stmts(init)[-1] is not assigns[0]
+                or not _same(assigns[0], _tmpl("self.h5obj = self.%s" % field))):
+            raise ExtractError("%s: `h5obj` is no longer set once, at the end of __init__, to `self.%s`" % (cname, field))
     return {"delitems": delitems, "scan": _delete_all(h5), "default": default, "bound": bound,
             "find": _find(repo), "table": _container_table(repo), "roles": _role_table(repo)}
 
